@@ -361,27 +361,17 @@ theorem calc_pairs {c c' : Ctx} {u : UsedTypes} (H : CalcNorm c c') (hP : POK c 
               refine All2.append (renderType_ok _ [] (fun m hm => mem_defines_left _ hm)
                 (All2.append (fieldsOK_mono mem_defines_right hfs) (fieldsOK_self hextra)) (fun v hv => by cases hv))
                 (itemsOK_mono mem_defines_right h2)
-            cases r1 with
-            | nil =>
-              cases r1' with
-              | nil =>
-                simp only []
-                split
-                · rename_i a _
-                  obtain ⟨tgt, bx, rfl, htgt⟩ := h4 a List.mem_cons_self
-                  have hdef : pfx ++ "On" ++ vname ∈ Scope.defines (aliasItem (pfx ++ "On" ++ vname) tgt bx :: r2) := by
-                    rw [C02.defines_cons, C02.aliasItem_defines]
-                    exact List.mem_cons_self
-                  refine hrest _ _ _ (hpay _ hdef) (.cons (itemOK_alias hdef (.inl htgt)) ?_)
-                  exact itemsOK_mono (fun m hm => by rw [C02.defines_cons]; exact List.mem_append_right _ hm) h2
-                · exact hbig [] [] .nil
-              | cons y ys => cases h1
-            | cons x xs =>
-              cases r1' with
-              | nil => cases h1
-              | cons y ys =>
-                simp only []
-                exact hbig _ _ h1
+            -- (P41) the decision (`pushedAny c.q vt mine`, the aliases) is the same on both sides
+            simp only []
+            split
+            · rename_i a _
+              obtain ⟨tgt, bx, rfl, htgt⟩ := h4 a List.mem_cons_self
+              have hdef : pfx ++ "On" ++ vname ∈ Scope.defines (aliasItem (pfx ++ "On" ++ vname) tgt bx :: r2) := by
+                rw [C02.defines_cons, C02.aliasItem_defines]
+                exact List.mem_cons_self
+              refine hrest _ _ _ (hpay _ hdef) (.cons (itemOK_alias hdef (.inl htgt)) ?_)
+              exact itemsOK_mono (fun m hm => by rw [C02.defines_cons]; exact List.mem_append_right _ hm) h2
+            · exact hbig _ _ h1
     · intro sname pfx vt vsels hvok
       cases vsels with
       | nil => unfold calcVariantSels; exact ORel.pure ⟨.nil, .nil, rfl, fun x hx => (by cases hx)⟩
